@@ -305,3 +305,7 @@ where
     Fetch(RequiredFetchBuilder<E::Key, E::Value, E::Properties, C>),
     Notifiers(Vec<Notifier<Option<RawCacheEntry<E, S, I>>>>),
 }
+
+#[cfg(kani)]
+#[path = "/verif/harness/foyer-memory/inflight.rs"]
+mod verif_kani;
